@@ -301,9 +301,11 @@ Definition rm_is_paused (p : remote) : bool :=
 (* ------------------------------------------------------------------ *)
 (* raft.go helpers *)
 
-Definition num_voting (r : raft) : N := nlen (r_remotes r) + nlen (r_witnesses r).
-Definition quorum (r : raft) : N := num_voting r / 2 + 1.
-Definition is_single_node_quorum (r : raft) : bool := quorum r =? 1.
+(* numVotingMembers / quorum / isSingleNodeQuorum: the expressions are TRANSLATED from the
+   source by tools/genmodel into Gen/GenRaft.v, names gen_X *)
+Definition num_voting (r : raft) : N := gen_numVotingMembers (nlen (r_remotes r)) (nlen (r_witnesses r)).
+Definition quorum (r : raft) : N := gen_quorum (num_voting r).
+Definition is_single_node_quorum (r : raft) : bool := gen_isSingleNodeQuorum (quorum r).
 Definition is_leader (r : raft) : bool := role_eqb (r_role r) Leader.
 Definition is_nonvoting (r : raft) : bool := role_eqb (r_role r) NonVoting.
 Definition is_witness (r : raft) : bool := role_eqb (r_role r) Witness.
@@ -573,7 +575,7 @@ Definition add_witness (r : raft) (id : N) : raft :=
   else if amem id (r_witnesses r0) then r0
   else r0 <| r_witnesses := ainsert id (new_remote 0 (log_last (r_log r0) + 1)) (r_witnesses r0) |>.
 
-Definition leader_transfering (r : raft) : bool := negb (r_transfer_target r =? 0) && is_leader r.
+Definition leader_transfering (r : raft) : bool := gen_leaderTransfering (is_leader r) (r_transfer_target r).
 
 Definition remove_node (r : raft) (id : N) : raft :=
   let r0 := r <| r_remotes := aremove id (r_remotes r) |> <| r_nonvotings := aremove id (r_nonvotings r) |>
@@ -694,7 +696,8 @@ Definition handle_replicate_message (r : raft) (m : msg) : raft :=
     end
   else send r (resp <| m_reject := true |> <| m_logindex := m_logindex m |> <| m_hint := log_last l |>).
 
-Definition has_config_change_to_apply (r : raft) : bool := r_applied r <? l_committed (r_log r).
+Definition has_config_change_to_apply (r : raft) : bool :=
+  gen_hasConfigChangeToApply (r_applied r) (l_committed (r_log r)).
 
 Definition handle_node_election (r : raft) (m : msg) : raft :=
   if is_leader r then r
@@ -710,7 +713,7 @@ Definition handle_node_request_prevote (r : raft) (m : msg) : raft :=
   else send r (resp <| m_term := r_term r |> <| m_reject := true |>).
 
 Definition can_grant_vote (r : raft) (m : msg) : bool :=
-  (r_vote r =? 0) || (r_vote r =? m_from m) || (r_term r <? m_term m).
+  gen_canGrantVote (m_from m) (m_term m) (r_term r) (r_vote r).
 
 Definition handle_node_request_vote (r : raft) (m : msg) : raft :=
   let resp := (msg0 mt_RequestVoteResp) <| m_to := m_from m |> in
@@ -952,7 +955,7 @@ Definition on_message_term_not_matched (r : raft) (m : msg) : raft * bool :=
     let '(r0, drop) := drop_request_vote_from_high_term r m in
     if drop then (r0, true)
     else if r_term r0 <? m_term m then
-      if (m_type m =? mt_RequestPreVote) || ((m_type m =? mt_RequestPreVoteResp) && negb (m_reject m))
+      if gen_isPreVoteMessageWithExpectedHigherTerm (m_reject m) (m_type m)
       then (r0, false)
       else
         let lid := if is_leader_message (m_type m) then m_from m else 0 in
@@ -1000,14 +1003,14 @@ with tick (fuel : nat) (r : raft) : raft :=
     if is_leader r0 then
       (* leaderTick *)
       let r1 := r0 <| r_election_tick := r_election_tick r0 + 1 |> in
-      let abort := leader_transfering r1 && (r_election_timeout r1 <=? r_election_tick r1) in
-      let r2 := if r_election_timeout r1 <=? r_election_tick r1 then
+      let abort := gen_timeToAbortLeaderTransfer (r_election_tick r1) (r_election_timeout r1) (leader_transfering r1) in
+      let r2 := if gen_timeForCheckQuorum (r_election_tick r1) (r_election_timeout r1) then
                   let r1' := r1 <| r_election_tick := 0 |> in
                   if r_check_quorum r1' then handle f r1' ((msg0 mt_CheckQuorum) <| m_from := r_id r1' |>) else r1'
                 else r1 in
       let r3 := if abort then r2 <| r_transfer_target := 0 |> else r2 in
       let r4 := r3 <| r_heartbeat_tick := r_heartbeat_tick r3 + 1 |> in
-      let r5 := if r_heartbeat_timeout r4 <=? r_heartbeat_tick r4 then
+      let r5 := if gen_timeForHeartbeat (r_heartbeat_tick r4) (r_heartbeat_timeout r4) then
                   handle f (r4 <| r_heartbeat_tick := 0 |>) ((msg0 mt_LeaderHeartbeat) <| m_from := r_id r4 |>)
                 else r4 in
       check_pending_snapshot_ack f r5
@@ -1015,7 +1018,7 @@ with tick (fuel : nat) (r : raft) : raft :=
       (* nonLeaderTick *)
       let r1 := r0 <| r_election_tick := r_election_tick r0 + 1 |> in
       if is_nonvoting r1 || is_witness r1 then r1
-      else if negb (self_removed r1) && (r_rand_timeout r1 <=? r_election_tick r1) then
+      else if negb (self_removed r1) && gen_timeForElection (r_election_tick r1) (r_rand_timeout r1) then
         handle f (r1 <| r_election_tick := 0 |>) ((msg0 mt_Election) <| m_from := r_id r1 |>)
       else r1
   end
